@@ -11,7 +11,7 @@ From NC Require Import Spec.CapsSpec Proofs.NegotiateProofs.
    number of server messages, timeouts, worker death — the first frame written is the client
    <hello> (message 0) in end-of-message framing. *)
 Theorem C05_first_frame : forall client labels s,
-  run true client init labels = Some s ->
+  run_labels true client init labels = Some s ->
   s_wire s = [] \/ exists rest, s_wire s = (B10, 0) :: rest.
 Proof. exact c05_first_frame. Qed.
 Print Assumptions C05_first_frame.
@@ -21,7 +21,7 @@ Print Assumptions C05_first_frame.
 Definition ex_server_hello : node :=
   server_hello true (lit "4"%string) [uri_b10; uri_b11].
 Theorem C05_first_frame_unfixed_refuted :
-  exists s rest, run false base_caps init [LTop false; LRecv (HTree ex_server_hello); LMain; LTop true] = Some s
+  exists s rest, run_labels false base_caps init [LTop false; LRecv (HTree ex_server_hello); LMain; LTop true] = Some s
                  /\ s_wire s = (B11, 0) :: rest.
 Proof. eexists. eexists. vm_compute. split; reflexivity. Qed.
 Print Assumptions C05_first_frame_unfixed_refuted.
@@ -29,7 +29,7 @@ Print Assumptions C05_first_frame_unfixed_refuted.
 (* Every frame after the hello was written after _post_connect returned normally, and is chunked
    iff both the server's reported capability list and the client's contain base:1.1 ... *)
 Theorem C05_iff : forall client labels s,
-  run true client init labels = Some s ->
+  run_labels true client init labels = Some s ->
   forall i f m, nth_error (s_wire s) (S i) = Some (f, m) ->
   s_main s = MReturned None /\
   exists sv, s_caps s = Some sv /\ (f = B11 <-> has11 sv /\ has11 client).
@@ -58,13 +58,13 @@ Print Assumptions C05_iff_unfixed_refuted.
 (* What HelloHandler.parse reports for a server hello is the server's session-id and its
    capability list (as a Capabilities object: duplicates collapse onto the first position). *)
 Theorem C05_reports : forall qual sid_text uris,
-  parse (server_hello qual sid_text uris) = Ok (SidText (Some sid_text), map fst (caps_of uris)).
+  parse_hello (server_hello qual sid_text uris) = Ok (SidText (Some sid_text), map fst (caps_of uris)).
 Proof. exact c05_reports. Qed.
 Print Assumptions C05_reports.
 
 (* The client hello lists exactly the keys of the client Capabilities object. *)
 Theorem C05_hello_lists_client_caps : forall client,
-  parse (build client) = Ok (SidDefault, map fst (caps_of (map fst (caps_of client)))).
+  parse_hello (build client) = Ok (SidDefault, map fst (caps_of (map fst (caps_of client)))).
 Proof. exact c05_build_lists. Qed.
 Print Assumptions C05_hello_lists_client_caps.
 
@@ -72,7 +72,7 @@ Print Assumptions C05_hello_lists_client_caps.
    without a well-formed server hello it never returns normally; if the worker dies before one was
    processed it never returns normally. *)
 Theorem C05_no_hang : forall client labels s,
-  run true client init labels = Some s ->
+  run_labels true client init labels = Some s ->
   (In LTimeout labels -> exists r, s_main s = MReturned r) /\
   ((forall l, In l labels -> ~ good l) -> s_main s <> MReturned None) /\
   (forall pre post, labels = pre ++ LDie :: post -> (forall l, In l pre -> ~ good l) -> s_main s <> MReturned None).
@@ -88,22 +88,22 @@ Print Assumptions C05_client_caps_base.
 (* -------- non-vacuity -------- *)
 (* the F15 order on the repaired system: hello in 1.0 framing, later requests chunked *)
 Example C05_ex_blocked :
-  exists s, run true base_caps init [LTop false; LRecv (HTree ex_server_hello); LMain; LTop true; LPut 1; LPut 2; LTop true; LTop true] = Some s
+  exists s, run_labels true base_caps init [LTop false; LRecv (HTree ex_server_hello); LMain; LTop true; LPut 1; LPut 2; LTop true; LTop true] = Some s
             /\ s_wire s = [(B10, 0); (B11, 1); (B11, 2)] /\ s_main s = MReturned None
             /\ s_sid s = SidText (Some (lit "4"%string)).
 Proof. eexists. vm_compute. repeat split; reflexivity. Qed.
 Example C05_ex_alu_stays_10 :
-  exists s, run true (profile_caps PAlu []) init [LTop true; LRecv (HTree ex_server_hello); LMain; LPut 1; LTop true] = Some s
+  exists s, run_labels true (profile_caps PAlu []) init [LTop true; LRecv (HTree ex_server_hello); LMain; LPut 1; LTop true] = Some s
             /\ s_wire s = [(B10, 0); (B10, 1)].
 Proof. eexists. vm_compute. split; reflexivity. Qed.
 Example C05_ex_timeout :
-  exists s, run true base_caps init [LTop true; LRecv HOther; LTimeout] = Some s /\ s_main s = MReturned (Some ETimeout).
+  exists s, run_labels true base_caps init [LTop true; LRecv HOther; LTimeout] = Some s /\ s_main s = MReturned (Some ETimeout).
 Proof. eexists. vm_compute. split; reflexivity. Qed.
 Example C05_ex_die :
-  exists s, run true base_caps init [LTop true; LDie; LMain] = Some s /\ s_main s = MReturned (Some ESessionClose).
+  exists s, run_labels true base_caps init [LTop true; LDie; LMain] = Some s /\ s_main s = MReturned (Some ESessionClose).
 Proof. eexists. vm_compute. split; reflexivity. Qed.
 Example C05_ex_empty_capability :
-  exists s, run true base_caps init
+  exists s, run_labels true base_caps init
               [LRecv (HTree (Node (qualify t_hello) None [Node (qualify t_capabilities) None [Node (qualify t_capability) None []]])); LMain] = Some s
             /\ s_main s = MReturned (Some EParse).
 Proof. eexists. vm_compute. split; reflexivity. Qed.
